@@ -96,9 +96,15 @@ func mkClient(c config) uhppote.IUHPPOTE {
 	return uhppote.NewUHPPOTE(bind, bcast, types.ListenAddr{}, T, devices, false)
 }
 
-func scenario(c config) e1.Scenario {
+func scenario(c config) e1.Scenario { return scenarioN([]config{c}) }
+
+// scenarioN: one client per configuration, built and used one after the other in the same process
+// (same simulated host); every client makes one call of the chosen operation. Each call is judged
+// against its own client's configuration: nothing may carry over from an earlier client.
+func scenarioN(cs []config) e1.Scenario {
 	var opIx int
 	var answered bool
+	var marks []int
 	body := func() {
 		f := &farm.Farm{}
 		answered = vs.Choose(2, "controllers-answer") == 1
@@ -116,19 +122,48 @@ func scenario(c config) e1.Scenario {
 		vs.Net().Env = f
 		opIx = vs.Choose(len(spec.Ops), "operation")
 		op := &spec.Ops[opIx]
-		u := mkClient(c)
-		if op.Broadcast {
-			u.GetDevices()
-		} else {
-			ops.Invoke(u, op.Name, target, ops.Baseline(op))
+		m := []int{0}
+		for _, c := range cs {
+			u := mkClient(c)
+			if op.Broadcast {
+				u.GetDevices()
+			} else {
+				ops.Invoke(u, op.Name, target, ops.Baseline(op))
+			}
+			m = append(m, len(vs.Net().Packets))
 		}
+		marks = m
 	}
 	check := func(e *vs.Exec) (string, []e1.Viol) {
 		viols := e1.Generic(e)
 		if e.Abort != "" {
 			return e.Abort, viols
 		}
-		op := &spec.Ops[opIx]
+		label := ""
+		for i, c := range cs {
+			prefix := ""
+			if len(cs) > 1 {
+				prefix = fmt.Sprintf("client-%d-of-%d/", i+1, len(cs))
+			}
+			l, v := judge(c, &spec.Ops[opIx], answered, vs.Net().Packets[marks[i]:marks[i+1]], prefix, cs)
+			label += l + " "
+			viols = append(viols, v...)
+		}
+		if open := vs.Net().OpenSockets(); len(open) > 0 {
+			viols = append(viols, e1.Viol{Key: "socket-left-open", What: fmt.Sprint(open)})
+		}
+		return label, viols
+	}
+	name := cs[0].String()
+	for _, c := range cs[1:] {
+		name += " THEN " + c.String()
+	}
+	return e1.Scenario{Name: name, Bound: 0, Body: body, Check: check}
+}
+
+func judge(c config, op *spec.Op, answered bool, packets []vs.Packet, prefix string, all []config) (string, []e1.Viol) {
+	viols := []e1.Viol{}
+	{
 		proto, dst := route(c)
 		serial := target
 		if op.Broadcast {
@@ -140,10 +175,14 @@ func scenario(c config) e1.Scenario {
 		}
 		want := spec.EncodeRequest(op, serial, wire(op))
 		add := func(key, what string) {
-			viols = append(viols, e1.Viol{Key: key, What: fmt.Sprintf("%s, operation %s: %s", c, op.Name, what)})
+			ctx := c.String()
+			if len(all) > 1 {
+				ctx = fmt.Sprintf("%s (clients used in this process, in order: %v)", c, all)
+			}
+			viols = append(viols, e1.Viol{Key: prefix + key, What: fmt.Sprintf("%s, operation %s: %s", ctx, op.Name, what)})
 		}
 		var data, connects []vs.Packet
-		for _, p := range vs.Net().Packets {
+		for _, p := range packets {
 			if p.Proto == "tcp-connect" {
 				connects = append(connects, p)
 			} else {
@@ -196,12 +235,8 @@ func scenario(c config) e1.Scenario {
 		if src.Addr().String() != wantIP || (wantPort != 0 && int(src.Port()) != wantPort) {
 			add(class+"/wrong-source", fmt.Sprintf("sent from %s, bind address %q", p.Src, c.bind))
 		}
-		if open := vs.Net().OpenSockets(); len(open) > 0 {
-			add("socket-left-open", fmt.Sprint(open))
-		}
 		return label, viols
 	}
-	return e1.Scenario{Name: c.String(), Bound: 0, Body: body, Check: check}
 }
 
 func wire(op *spec.Op) spec.Args {
@@ -244,14 +279,43 @@ func main() {
 			}
 		}
 	}
+	// two (thorough: also three) clients with different configurations, one after the other in one process
+	reduced := []config{}
+	for _, ctrl := range []string{"none", "192.168.1.100:60000"} {
+		for _, proto := range []string{"udp", "tcp"} {
+			for _, bind := range []string{"", "192.168.1.2:54321", "192.168.1.3:54321"} {
+				for _, bcast := range []string{"", "192.168.1.255:60005"} {
+					reduced = append(reduced, config{ctrl, proto, bind, bcast, false, false})
+				}
+			}
+		}
+	}
+	for _, a := range reduced {
+		for _, b := range reduced {
+			scenarios = append(scenarios, scenarioN([]config{a, b}))
+		}
+	}
 	if r.Thorough() {
+		small := []config{}
+		for _, c := range reduced {
+			if c.protocol == "udp" {
+				small = append(small, c)
+			}
+		}
+		for _, a := range small {
+			for _, b := range small {
+				for _, c := range small {
+					scenarios = append(scenarios, scenarioN([]config{a, b, c}))
+				}
+			}
+		}
 		e1.PerScenario = 6 * time.Minute
 	}
 	e1.RunAll(r, scenarios, budget(r))
 	if r.Worker == "" && r.Replay == "" {
 		e1.Conformance(r)
 	}
-	r.Rule("full cross product of 6 target-controller configurations x 6 protocol strings x 4 bind addresses x 3 broadcast settings x bystander controller x constructor (1728 configurations), each x 32 operations x controllers {silent, answering} as environment choices; distinct = distinct (transport, destination, answered) labels")
+	r.Rule("full cross product of 6 target-controller configurations x 6 protocol strings x 4 bind addresses x 3 broadcast settings x bystander controller x constructor (1728 configurations), each x 32 operations x controllers {silent, answering} as environment choices; plus every ordered pair (thorough: also every ordered triple over the 12 UDP ones) of 24 reduced configurations {unconfigured, configured} x {udp, tcp} x {no bind, two different local addresses on the same fixed port} x {default, configured broadcast address} as clients used one after the other in one process, each call judged against its own client's configuration; distinct = distinct (transport, destination, answered) labels")
 	r.Assume("reference routing function route() in this file, written from the property statement; protocol strings other than exactly \"tcp\" mean UDP")
 	r.Assume("simulated network: source address = bind address, ephemeral port when the bind port is 0")
 	r.Finish()
